@@ -11,7 +11,7 @@ use crate::drivers::{self, Final};
 use crate::engine::{replay_from_file, show_bytes, CheckResult, Ctx, Failure, Obs};
 use crate::fail;
 use crate::inputs::{input_strategy, Input};
-use crate::source::{feed_strategy, Feed};
+use crate::source::Feed;
 
 pub fn def() -> PropDef {
     PropDef {
@@ -23,7 +23,8 @@ pub fn def() -> PropDef {
                digit numbers, over-long binary varints, arbitrary tails), documents behind a byte order mark or \
                stray line end, and one short token repeated 10^3..10^6 times inside a valid document, for every parser (streaming and \
                collecting parse()), literal type and config, delivered one-shot or through a generated feed (read sizes, interruptions, chunk size, constructor; one in ten ends in an injected I/O error), in \
-               a build with overflow checks + debug assertions and in a plain release build. Each case runs in an \
+               a build with overflow checks + debug assertions and in a plain release build; the repeated-token \
+               class additionally on a thread with a 2 MiB stack, also in a build without optimisation (one extra shard). Each case runs in an \
                isolated worker process with a counting allocator and a CPU watchdog. Oracle: the outcome is a \
                value (clean end, syntax error, I/O error) - not a panic, not a signal/abort (worker death is \
                attributed to the running case), not a CPU-limit hit - and the peak heap attributable to the parse \
@@ -99,15 +100,32 @@ pub fn check(c: &Case, obs: &mut Obs) -> CheckResult {
     Ok(())
 }
 
+pub fn check_scale(c: &Case, obs: &mut Obs) -> CheckResult {
+    crate::engine::on_small_stack(|| check(c, obs))
+}
+
+fn scale_strategy() -> impl Strategy<Value = Case> {
+    crate::gen::spec_strategy()
+        .prop_flat_map(|spec| crate::inputs::repetition_strategy(spec, 6))
+        .prop_map(|input| Case { input, feed: None })
+}
+
 fn run(ctx: &Ctx) {
     if !alloc::installed() {
         ctx.note("counting allocator not installed: heap bound not checked");
     }
+    // Scale: one token repeated up to 10^6 times, parsed on a thread with a 2 MiB stack. This is
+    // all the extra shard built without optimisation runs (recursion stays recursion there).
+    if ctx.profile == "unopt" {
+        ctx.run_cases("robustness-scale", ctx.tier.pick(320, 3_200), scale_strategy(), check_scale);
+        return;
+    }
+    ctx.run_cases("robustness-scale", ctx.share(ctx.tier.pick(1_600, 16_000)), scale_strategy(), check_scale);
     let n = ctx.share(ctx.tier.pick(1_600_000, 80_000_000));
     // two feeds in five are generated; a quarter of those fail after a generated number of bytes
     let strat = (
         input_strategy(12, true),
-        proptest::option::weighted(0.4, feed_strategy()),
+        proptest::option::weighted(0.4, crate::source::parser_feed_strategy()),
         proptest::option::weighted(0.25, (any::<u16>(), crate::source::errkind_strategy())),
     )
         .prop_map(|(input, mut feed, fail)| {
@@ -129,6 +147,10 @@ fn run(ctx: &Ctx) {
 
 fn replay(oracle: &str, v: &Value) -> Option<CheckResult> {
     match oracle {
+        "robustness-scale" => Some(match replay_from_file::<Case>(v) {
+            Ok(c) => check_scale(&c, &mut Obs::default()),
+            Err(e) => Err(Failure::new("C05:decode", e)),
+        }),
         "robustness" | "robustness-large" => Some(match replay_from_file::<Case>(v) {
             Ok(c) => check(&c, &mut Obs::default()),
             Err(e) => Err(Failure::new("C05:decode", e)),
